@@ -48,6 +48,18 @@ pub fn exec(op: &str, a: &[Vec<u8>]) -> Out {
                 vk.with_context(&a[3]).is_ok() as u8,
             ])
         }
+        // [A, R, S, msg]: hazmat::raw_verify with a caller-chosen context digest (pass-through): the challenge is
+        // k = (R || A) mod l, so chosen (A, R) reach k = 0, 1, l-1 .. - values SHA-512 never produces
+        "tot.verify_chosen_k" => {
+            let pk = match b32(&a[0]) { Some(x) => x, None => return Out::Rej };
+            let (r, s) = match (b32(&a[1]), b32(&a[2])) { (Some(r), Some(s)) => (r, s), _ => return Out::Rej };
+            let vk = match VerifyingKey::from_bytes(&pk) { Ok(v) => v, Err(_) => return Out::Ok(vec![0]) };
+            let mut sb = [0u8; 64];
+            sb[..32].copy_from_slice(&r);
+            sb[32..].copy_from_slice(&s);
+            let sig = Signature::from_bytes(&sb);
+            Out::Ok(vec![ed25519_dalek::hazmat::raw_verify::<Passthrough>(&vk, &a[3], &sig).is_ok() as u8])
+        }
         _ => {
             let _ = Sha512::new();
             Out::Unknown
